@@ -166,8 +166,7 @@ def run(ctx):
         for bi in stores:
             g = K.dominating_guards(f, cv, bi)
             det.append(g)
-            if not any(re.match(r"^Gt\(Header::version\(%2\), (2|.*MAX_VERSION.*)\) -> 0$", x) or
-                       re.match(r"^Le\(Header::version\(%2\), (2|.*MAX_VERSION.*)\) -> else$", x) for x in g):
+            if not any(re.match(r"^Header::version\(%2\) <= (2|.*MAX_VERSION.*)$", x) for x in g):
                 okv = False
         ctx.ob("R-GRD", "Connection::check_version:version-stored-only-if-supported", okv,
                "check_version remembers the client's version only on the branch where it is not above MAX_VERSION (a rejected "
